@@ -8,7 +8,9 @@ Decided (structural, all buffer sizes and all formatted texts):
  R2 K4  no unaudited may-panic site reachable from write_c_str.
  R3 K2  CStrWriter::finish returns Ok only on the `nw <= dst.len()` edge.
  R4 K1  CStrWriter::write updates `nw` on every path that got past the empty-input return.
-Not decided: exactness of the reported size for multi-fragment texts (value-level)."""
+ R5 K6  the counter is a running total: the sum stored into `nw` is `*nw` (read straight from the
+        field, not clamped to the buffer) saturating_add the fragment's length.
+Not decided: that get_mut(nw..end) addresses the right bytes for every fragment sequence (value-level)."""
 from rules.core import k4
 from rules.core.facts import Place, Operand
 
@@ -132,3 +134,13 @@ def run(F, rep, tier):
                 if o.place is None or endl not in w.backward_sources(o.place.local)[0]:
                     good = False
         rep.check(good, "write|nw-is-end", "K6 provenance", "the value stored into *nw is the saturating sum `end`", site=w.site())
+        # R5 the sum is a running total: old *nw (unclamped, straight from the field) + src.len()
+        a0 = w.origins(sat[0].args[0], through_calls="*")
+        a1 = w.origins(sat[0].args[1], through_calls="*")
+        calls0 = {t for t in a0 if t.startswith("call:")}
+        ok = "field:nw" in a0 and not calls0 and "field:dst" not in a0 and "call:len" in a1 and "field:nw" not in a1 and "field:dst" not in a1 \
+            and ("call:as_bytes" in a1 or "arg:2" in a1)
+        rep.check(ok, "write|nw-running-total", "K6 provenance",
+                  "`end` = (*nw, read straight from the field) saturating_add (length of the fragment): nw keeps counting past the end of the buffer",
+                  "CStrWriter::write no longer accumulates `*nw + src.len()` from the unmodified counter (left operand from %s, right operand from %s): "
+                  "after an overflow the reported size forgets fragments already counted" % (sorted(a0), sorted(a1)), sat[0].site())
